@@ -25,7 +25,8 @@ EXTENDS Naturals, Sequences, FiniteSets, TLC, Json
 CONSTANTS EmitObl, Group        \* Group: which part of the table this run covers
 
 Desc == {"num", "zero", "neg", "frac", "big", "text", "numtext", "empty", "true", "false",
-         "blank", "na", "div0", "rnum", "rcol", "rerr", "rmix", "lit", "literr"}
+         "blank", "na", "div0", "rnum", "rcol", "rerr", "rmix", "lit", "literr",
+         "datetext", "farDate"}        \* text that reads as a date: inside / beyond the calendar
 RefDesc == {"blank", "rnum", "rcol", "rerr", "rmix"}
 ErrDesc == {"na", "div0", "rerr", "literr"}
 \* what IF makes of a condition: TRUE / FALSE / "x" (an error, an array, or not settled here)
